@@ -114,8 +114,10 @@ def run(eng, rep) -> None:
     rep.rule("R07.3", "leaf conversions and the field-parameter table (unit->unit[0]; range->min[0],max[1]; each entry sets only its own keys)")
     rep.rule("R07.4", "exactly one default binding per struct on the success path; declaration lists only appended to")
     rep.rule("R07.5", "%ignore = space, tab, newline, comments; ignored terminals are not greedy")
+    rep.rule("R07.7", "optional numeric parameters (range bounds, ...) are compared with None, never tested by truth value")
     rep.rule("R07.6", "discriminators used on mixed children separate the child kinds")
     rep.assume("Earley ambiguity resolution (e.g. `param` with optional parentheses), numeric literal forms accepted by SIGNED_NUMBER, print->parse direction")
+    r077(eng, rep)
     g = Grammar(prog)
     cbs = callbacks(eng, g)
     tcls = transformer_class(eng)
@@ -507,6 +509,46 @@ def r075(eng, rep, g: Grammar) -> None:
         bad = greedy_any(tree)
         rep.check(not bad, "R07.5", "src/fcp/parser.py", "grammar", "ignored terminal %s = /%s/" % (name, p[:60]), "no greedy wildcard before a closing delimiter",
                   "ignored terminal contains a greedy wildcard followed by a closing delimiter: on a line with two such comments everything between them, including schema text, is ignored")
+
+
+def numeric_optional(ann) -> bool:
+    """annotation is Optional[...]/Union[..., None]/`X | None` over int/float only"""
+    if ann is None:
+        return False
+    t = ast.unparse(ann).replace("typing.", "")
+    if not ("Optional[" in t or "None" in t):
+        return False
+    core = t.replace("Optional", "").replace("Union", "").replace("None", "")
+    names = set(x for x in "".join(c if c.isalnum() or c == "_" else " " for c in core).split())
+    return bool(names) and names <= {"int", "float"}
+
+
+def r077(eng, rep) -> None:
+    """A parameter declared Optional[number] is tested only against None: `if p`, `p or d`, `x if p else y`, `not p`
+    also take 0 / 0.0 for absent."""
+    n = 0
+    for f in eng.prog.functions.values():
+        if not (f.module.name.startswith("fcp.specs") or f.module.name == "fcp.parser"):
+            continue
+        ps = {a.arg: a.annotation for a in f.node.args.args + f.node.args.kwonlyargs if numeric_optional(a.annotation)}
+        if not ps:
+            continue
+        n += len(ps)
+        rebound = {t.id for x in walk_local(f.node) if isinstance(x, ast.Assign) for t in x.targets if isinstance(t, ast.Name)}
+        for x in walk_local(f.node):
+            tests = []
+            if isinstance(x, (ast.If, ast.IfExp, ast.While)):
+                tests.append(x.test)
+            elif isinstance(x, ast.BoolOp):
+                tests += x.values[:-1] if isinstance(x.op, ast.Or) else x.values
+            elif isinstance(x, ast.comprehension):
+                tests += x.ifs
+            for t in tests:
+                if isinstance(t, ast.UnaryOp) and isinstance(t.op, ast.Not):
+                    t = t.operand
+                if isinstance(t, ast.Name) and t.id in ps and t.id not in rebound:
+                    rep.violation("R07.7", f.file, f.qual, norm(x, 70), "'%s' is declared %s and tested for truth: a declared 0 / 0.0 is taken for 'not given' and disappears from the tree" % (t.id, ast.unparse(ps[t.id])))
+    rep.ok("R07.7", "-", "-", "optional numeric parameters of the spec classes and parser", "%d parameters, none tested by truth value" % n)
 
 
 def greedy_any(tree, top=True) -> bool:
